@@ -23,6 +23,9 @@ pub struct AllocPlan {
     /// objects of a large structure built and dropped before the loop (0: none): the live set
     /// shrinks sharply, and the heap bound has to follow it down
     pub burst: usize,
+    /// nodes of a linked list built before the loop and kept alive in a global for the whole run
+    /// (0: none): live data reached only through a chain of that many references
+    pub chain: usize,
 }
 
 pub const KINDS: usize = 12;
@@ -61,7 +64,8 @@ pub fn plan_n(data: &[u8], max_iter: usize, max_keep: usize, nkinds: usize) -> A
     }
     let retained_kind = rd.below(8);
     let burst = if rd.chance(1, 3) { 500 + rd.below(6000) } else { 0 };
-    AllocPlan { iterations, keep, kinds, retained_kind, burst }
+    let chain = if rd.chance(1, 6) { 200 + rd.below(3800) } else { 0 };
+    AllocPlan { iterations, keep, kinds, retained_kind, burst, chain }
 }
 
 fn lam(name: &str, params: &[&str], body: Expr) -> Expr {
@@ -305,6 +309,15 @@ pub fn program(p: &AllocPlan, iterations: usize) -> Program {
         )));
         main.push(Stmt::print(Expr::invoke(v("big"), "len", vec![])));
         main.push(Stmt::expr(Expr::assign_var("big", Expr::Nil)));
+    }
+    if p.chain > 0 {
+        // var chain = nil; for c in 0..N { chain = Node.new(chain); }
+        main.push(Stmt::var("chain", Some(Expr::Nil)));
+        main.push(Stmt::new(StmtKind::For(
+            "c".into(),
+            Expr::range(n(0.0), n(p.chain as f64)),
+            vec![Stmt::expr(Expr::assign_var("chain", Expr::invoke(v("Node"), "new", vec![v("chain")])))],
+        )));
     }
     let mut body: Vec<Stmt> = Vec::new();
     for k in &p.kinds {
